@@ -139,15 +139,21 @@ Theorem zero_hops_refuted : exists st q,
 Proof. exact zero_hops_refuted_l. Qed.
 Print Assumptions zero_hops_refuted.
 
-Theorem return_distinct_refuted : exists st q,
-  k5_return_distinct q = true /\ plan_rows st (gql_plan_of q) <> answer st q /\ plan_rows st (cypher_plan_of q) <> answer st q.
-Proof. exact return_distinct_refuted_l. Qed.
-Print Assumptions return_distinct_refuted.
+Theorem return_distinct_pre_refuted : exists st q,
+  k5_return_distinct q = true /\ plan_rows st (clear_distinct (gql_plan_of q)) <> answer st q /\
+  plan_rows st (gql_plan_of q) = answer st q /\ plan_rows st (cypher_plan_of q) = answer st q.
+Proof. exact return_distinct_pre_refuted_l. Qed.
+Print Assumptions return_distinct_pre_refuted.
 
-Theorem gql_limit_before_order_refuted : exists st q,
-  k6_gql_limit_first LGql q = true /\ plan_rows st (gql_plan_of q) <> answer st q.
-Proof. exact gql_limit_before_order_refuted_l. Qed.
-Print Assumptions gql_limit_before_order_refuted.
+Theorem gql_limit_before_order_pre_refuted : exists st q,
+  k6_gql_limit_first_pre LGql q = true /\ plan_rows st (gql_plan_pre_of q) <> answer st q /\ plan_rows st (gql_plan_of q) = answer st q.
+Proof. exact gql_limit_before_order_pre_refuted_l. Qed.
+Print Assumptions gql_limit_before_order_pre_refuted.
+
+Theorem gql_limit_before_distinct_refuted : exists st q,
+  k6_gql_limit_first LGql q = true /\ plan_rows st (gql_plan_of q) <> answer st q /\ plan_rows st (cypher_plan_of q) = answer st q.
+Proof. exact gql_limit_before_distinct_refuted_l. Qed.
+Print Assumptions gql_limit_before_distinct_refuted.
 
 Theorem multi_label_refuted : exists st q,
   k7_multi_label q = true /\ plan_rows st (gql_plan_of q) <> answer st q /\ plan_rows st (cypher_plan_of q) <> answer st q.
@@ -164,15 +170,18 @@ Theorem edge_prop_after_sort_refuted : exists st q,
 Proof. exact edge_prop_after_sort_refuted_l. Qed.
 Print Assumptions edge_prop_after_sort_refuted.
 
-Theorem cypher_count_refuted : exists st q,
-  k12_cypher_count LCypher q = true /\ plan_rows st w_k12_cypher_plan <> answer st q /\ plan_rows st (gql_plan_of q) = answer st q.
-Proof. exact cypher_count_refuted_l. Qed.
-Print Assumptions cypher_count_refuted.
+Theorem cypher_count_pre_refuted : exists st q,
+  k12_cypher_count LCypher q = true /\ plan_rows st (cypher_plan_pre_of q) <> answer st q /\
+  plan_rows st (cypher_plan_of q) = answer st q /\ plan_rows st (gql_plan_of q) = answer st q.
+Proof. exact cypher_count_pre_refuted_l. Qed.
+Print Assumptions cypher_count_pre_refuted.
 
-Theorem typed_result_refuted : exists st q,
-  k13_typed_result st q = true /\ plan_rows st (gql_plan_of q) <> answer st q /\ plan_rows st (cypher_plan_of q) <> answer st q.
-Proof. exact typed_result_refuted_l. Qed.
-Print Assumptions typed_result_refuted.
+Theorem typed_result_pre_refuted : exists st q rs,
+  k13_typed_result st q = true /\ answer st q = Ok rs /\
+  map (map cell_val) (typed_rows_pre (agg_coltype_pre (mkAgg AMin (Some (EProp "a" "x")) false None) :: nil) (map (map CVal) rs)) <> rs /\
+  plan_rows st (gql_plan_of q) = answer st q /\ plan_rows st (cypher_plan_of q) = answer st q.
+Proof. exact typed_result_pre_refuted_l. Qed.
+Print Assumptions typed_result_pre_refuted.
 
 (** non-vacuity: the hypotheses of the positive theorems are met by a graph with parallel edges and
     a two-hop query with WHERE, SKIP and LIMIT that returns rows *)
